@@ -179,12 +179,105 @@ def run(v, tier, rng):
         tot_skipped += n_skipped
     if tot_enomem == 0:
         raise Broken("no injected failure was reported as ENOMEM: injection is not working")
+    api = api_part(v, thorough, rdir)
     v.cov["oom"] = per_obj
+    v.cov["oom_api"] = api
     v.cov["traces_validated_against_impl"] = tot_enomem + tot_normal
-    v.cov["evaluations"] = tot_inj
-    v.cov["distinct_nontrivial"] = tot_inj
+    v.cov["evaluations"] = tot_inj + sum(x["injections"] for x in api.values())
+    v.cov["distinct_nontrivial"] = v.cov["evaluations"]
     v.cov["rule"] = ("(state, action, k): every allocating step of the edge-cover walks of Lmq/IdMap/Msg with its k-th allocation failing, "
                      "k up to the number of allocations of that step (max 4); quick tier: each (state, action, k) once")
-    v.assumptions += ["only the library objects reachable without the I/O framework are injected (lmq, id map, nng_msg); sockets, "
-                      "transports, URL/HTTP handling and background threads are not (see DESIGN.md, C20)",
+    v.assumptions += ["conformance under failure (ENOMEM + unchanged state) is judged for lmq, id map and nng_msg; for API programs over "
+                      "sockets and the tcp/ipc transports (incl. background threads) a failing allocation is judged by survival only: no "
+                      "crash, no hang, every block returned after close (see DESIGN.md, C20)",
                       "one failing allocation at a time"]
+
+
+def api_part(v, thorough, rdir):
+    """API programs over real sockets and transports (behaviours of wire/Framing.tla: open, listen on tcp and ipc, peers
+    connecting, handshakes, frames, sends, disconnects, close) with the k-th allocation failing, for every k (quick: a
+    sample), in whatever thread it happens.  What the program observes after the failure is not compared (a message or a
+    connection may be lost); the run must not crash, hang or leak."""
+    from checks.wirelib import wire_cmd
+    from checks.c16 import ws_cmd
+    exes = {"wire": build_driver("drv_wire", ["drv_wire.c", "acct.c"]), "ws": build_driver("drv_ws", ["drv_ws.c", "acct.c"])}
+    res = {}
+    for fam, spec, cmdf, opener, plan in (
+            ("wire", "wire/Framing.tla", wire_cmd, "open %s 4 1 0",
+             (("Framing_sim.cfg", "pull", 24 if thorough else 12), ("FramingOut_sim.cfg", "push", 10 if thorough else 5))),
+            ("ws", "wire/Ws.tla", ws_cmd, "open %s 6 4 2 1 0",
+             (("Ws_sim.cfg", "pull", 20 if thorough else 8), ("WsOut_sim.cfg", "push", 8 if thorough else 4)))):
+        res[fam] = api_family(v, thorough, rdir, fam, exes[fam], spec, cmdf, opener, plan)
+    return res
+
+
+def api_family(v, thorough, rdir, fam, exe, spec, cmdf, opener, plan):
+    progs = []
+    for cfg, kind, nwalk in plan:
+        g = tlc_edges(spec, cfg, timeout=1500, simulate=150, depth=12, seed=v.seed, cache=False)
+        walks = sorted([w for w in g["walks"] if len(w) >= 6], key=len, reverse=True)[:nwalk]
+        for w in walks:
+            progs.append((kind, [cmdf(act_in(g["edges"][e][2])) for e in w]))
+
+    def block(bid, kind, cmds, k):
+        return (bid, ["failat %d" % k, opener % kind] + cmds)
+    # pass 1: allocation count of every program
+    fn = os.path.join(rdir, "api-%s-count.cmd" % fam)
+    write_blocks(fn, [block(i, kind, cmds, 0) for i, (kind, cmds) in enumerate(progs)])
+    rc, lines, err = run_driver(exe, fn, 900)
+    if rc != 0 or not lines or lines[-1] != "Z":
+        raise Broken("C20 api counting pass failed (rc=%s): %s" % (rc, observer_sig(err) or err[-300:]))
+    counts = {}
+    for ln in lines:
+        if ln.startswith("A "):
+            _, wid, js = ln.split(" ", 2)
+            counts[int(wid)] = json.loads(js)["allocs"]
+    blocks = []
+    for i, (kind, cmds) in enumerate(progs):
+        n = counts.get(i, 0)
+        ks = list(range(1, n + 1))
+        if not thorough and len(ks) > 90:
+            stepk = len(ks) / 90.0
+            ks = sorted(set(ks[int(j * stepk)] for j in range(90)))
+        for k in ks:
+            blocks.append((i, k))
+    files, index = [], {}
+    for c0 in range(0, len(blocks), 30):
+        fn = os.path.join(rdir, "api-%s-fail-%d.cmd" % (fam, c0))
+        part = blocks[c0:c0 + 30]
+        write_blocks(fn, [block(c0 + j, progs[i][0], progs[i][1], k) for j, (i, k) in enumerate(part)])
+        for j, b in enumerate(part):
+            index[c0 + j] = b
+        files.append(fn)
+    fired = clean = 0
+    for fn, (rc, lines, err) in zip(files, run_files(exe, files)):
+        ends, infos, begun = {}, {}, -1
+        for ln in lines:
+            if ln.startswith("X "):
+                _, wid, js = ln.split(" ", 2)
+                ends[int(wid)] = json.loads(js)
+            elif ln.startswith("A "):
+                _, wid, js = ln.split(" ", 2)
+                infos[int(wid)] = json.loads(js)
+            elif ln.startswith("B "):
+                begun = int(ln.split()[1])
+        for bid, end in ends.items():
+            i, k = index[bid]
+            fired += 1 if infos.get(bid, {}).get("fired") else 0
+            if end.get("leak") or end.get("mism") or end.get("badfree"):
+                v.violation("oom.api.%s.%s:balance" % (fam, progs[i][0]), ("program %d (%s socket, " + fam + " transports) with allocation %d failing: allocator imbalance after close: %s") % (
+                            i, progs[i][0], k, json.dumps(end)),
+                            dict(spec=spec, driver="drv_" + fam, cmdfile=fn, block=bid, program=progs[i][1], k=k))
+            else:
+                clean += 1
+        if rc != 0 or not lines or lines[-1] != "Z" or any(ln.startswith("L ") for ln in lines):
+            i, k = index.get(begun, (0, 0))
+            osig = observer_sig(err) or ("watchdog" if rc == 124 else ("leak-after-fini" if rc == 0 else "exit-%d" % rc))
+            v.violation("oom.api.%s.%s:%s" % (fam, progs[i][0], osig), ("program %d (%s socket, " + fam + " transports) with allocation %d failing: %s") % (
+                        i, progs[i][0], k, osig),
+                        dict(spec=spec, driver="drv_" + fam, cmdfile=fn, block=begun, program=progs[i][1], k=k, observer=osig,
+                             stderr=err[-3000:]))
+    log("oom api %s: %d programs, %d injections (%d fired), %d clean" % (fam, len(progs), len(blocks), fired, clean))
+    if blocks and fired == 0:
+        raise Broken("no injected failure fired in the API programs")
+    return dict(programs=len(progs), injections=len(blocks), fired=fired, clean=clean, allocations=counts)
